@@ -43,7 +43,12 @@ fn is_false(x: &bool) -> bool {
 #[derive(Deserialize, Serialize, Clone, Debug, PartialEq)]
 #[serde(tag = "k", rename_all = "snake_case")]
 pub enum Io {
-    Loc { n: u32 },
+    Loc {
+        n: u32,
+        /// `@second_blend_source` (dual-source blending: a second output at the same location)
+        #[serde(default, skip_serializing_if = "is_false")]
+        blend: bool,
+    },
     Builtin { b: String },
 }
 
@@ -108,6 +113,8 @@ pub enum Node {
     },
     /// ctx: plain if_accept if_reject switch_case switch_default loop_body loop_continuing for_body for_update while_body
     Block { ctx: String, items: Vec<Node> },
+    /// a read of a pipeline-overridable constant
+    Ovr { o: String },
 }
 
 #[derive(Deserialize, Serialize, Clone, Debug)]
